@@ -321,7 +321,7 @@ theorem rec_updnoc (cfg : Cfg) (n : Node) (sid s node ser : Nat) (mode : Mode) (
             simp only [ok]
             have h1 : Rec (setFabric n { f with node := node, ser := ser }) :=
               rec_same (fabGen_setFabric n f { f with node := node, ser := ser } rfl rfl (by rw [hidx]; exact hgf)) rfl rfl rfl h
-            exact rec_same (fun i => rfl) rfl rfl rfl h1
+            exact rec_same (n := setFabric n { f with node := node, ser := ser }) (fun i => rfl) rfl rfl rfl h1
 
 theorem rec_complete (cfg : Cfg) (n : Node) (sid s : Nat) (mode : Mode) (hg : GenInv n) (h : Rec n) :
     Rec (sessOp cfg n sid mode (.complete s)).1 := by
@@ -345,14 +345,14 @@ theorem rec_complete (cfg : Cfg) (n : Node) (sid s : Nat) (mode : Mode) (hg : Ge
         | true =>
           simp only []
           have hg2 : GenInv { n1 with managed := true } := genInv_same rfl rfl rfl rfl hg1
-          have h2 : Rec { n1 with managed := true } := rec_same (fun i => rfl) rfl rfl rfl h1
+          have h2 : Rec { n1 with managed := true } := rec_same (n := n1) (fun i => rfl) rfl rfl rfl h1
           have h3 := rec_storeNets hg2 h2
           rcases hsn : storeNets { n1 with managed := true } with ⟨n4, b4⟩
           rw [hsn] at h3
           simp only at h3
           cases b4 with
-          | false => exact rec_same (fun i => rfl) rfl rfl rfl h3
-          | true => exact rec_same (fun i => rfl) rfl rfl rfl h3
+          | false => simp only []; exact rec_same (n := n4) (fun i => rfl) rfl rfl rfl h3
+          | true => simp only [ok]; exact rec_same (n := n4) (fun i => rfl) rfl rfl rfl h3
 
 theorem rec_rmfab (cfg : Cfg) (n : Node) (sid s idx : Nat) (mode : Mode) (hg : GenInv n) (h : Rec n) :
     Rec (sessOp cfg n sid mode (.rmfab s idx)).1 := by
@@ -411,5 +411,339 @@ theorem rec_rmfab (cfg : Cfg) (n : Node) (sid s idx : Nat) (mode : Mode) (hg : G
           rw [hfind, if_neg hne]
           exact h2.live l hl r hr
     · simp only [hh, Bool.false_eq_true, if_false]; exact h
+
+
+theorem sessOp_addnoc_keep (cfg : Cfg) (n : Node) (sid s ca fid node subj ser : Nat) (mode : Mode) :
+    (∀ i g, fabGen n i = some g → fabGen (sessOp cfg n sid mode (.addnoc s ca fid node subj ser)).1 i = some g) ∧
+    (sessOp cfg n sid mode (.addnoc s ca fid node subj ser)).1.failIn = n.failIn := by
+  simp only [sessOp]
+  split
+  · exact ⟨fun i g h => h, rfl⟩
+  · split
+    · exact ⟨fun i g h => h, rfl⟩
+    · split
+      · exact ⟨fun i g h => h, rfl⟩
+      · split
+        · exact ⟨fun i g h => h, rfl⟩
+        · split
+          · exact ⟨fun i g h => h, rfl⟩
+          · split
+            · exact ⟨fun i g h => h, rfl⟩
+            · split
+              · exact ⟨fun i g h => h, rfl⟩
+              · split
+                · exact ⟨fun i g h => h, rfl⟩
+                · rename_i idx hidx
+                  have hfresh := getFabric_none_of_not_has (newIdx_fresh n idx hidx)
+                  split
+                  · exact ⟨fun i g h => h, rfl⟩
+                  · generalize hf : ({ idx := idx, gen := n.nextGen, ca := n.staged, fid := fid, node := node, ser := ser,
+                                       acl := [subj], grp := [], label := 0 } : Fabric) = f
+                    have hfi : f.idx = idx := by rw [← hf]
+                    have happ : ∀ i, i ≠ idx → (n.fabrics ++ [f]).find? (fun g => decide (g.idx = i)) = getFabric n i := by
+                      intro i hi
+                      rw [find_append_single]
+                      have : ¬ f.idx = i := by rw [hfi]; exact fun hh => hi hh.symm
+                      simp only [getFabric, this, if_false]
+                      cases n.fabrics.find? (fun g => decide (g.idx = i)) <;> rfl
+                    have hne : ∀ i g, fabGen n i = some g → i ≠ idx := by
+                      intro i g hg hi
+                      unfold fabGen at hg
+                      rw [hi, hfresh] at hg; cases hg
+                    split
+                    · refine ⟨fun i g hg => ?_, rfl⟩
+                      unfold fabGen getFabric at hg ⊢
+                      simp only []
+                      rw [happ i (hne i g hg)]; exact hg
+                    · refine ⟨fun i g hg => ?_, rfl⟩
+                      have hi := hne i g hg
+                      unfold fabGen getFabric at hg ⊢
+                      simp only []
+                      rw [find_filter_ne, if_neg hi, happ i hi]; exact hg
+                    · refine ⟨fun i g hg => ?_, rfl⟩
+                      unfold fabGen getFabric at hg ⊢
+                      simp only []
+                      rw [happ i (hne i g hg)]; exact hg
+
+theorem sessOp_rec (cfg : Cfg) (n : Node) (sid : Nat) (mode : Mode) (op : Op) (hg : GenInv n) (h : Rec n) :
+    Rec (sessOp cfg n sid mode op).1 := by
+  cases op with
+  | openW s => exact rec_untouched cfg n sid mode _ h (by simp)
+  | arm s secs =>
+    by_cases h0 : secs = 0
+    · subst h0
+      simp only [sessOp, if_true]
+      have := rec_expire cfg n (some sid) hg h
+      rcases hr : expire cfg n (some sid) with ⟨n1, e⟩
+      rw [hr] at this
+      cases e <;> exact this
+    · exact rec_untouched cfg n sid mode _ h (Or.inr (Or.inr (Or.inr (Or.inr (Or.inl ⟨s, secs, rfl, h0⟩)))))
+  | csr s upd => exact rec_untouched cfg n sid mode _ h (by simp)
+  | root s ca => exact rec_untouched cfg n sid mode _ h (by simp)
+  | net s v => exact rec_untouched cfg n sid mode _ h (by simp)
+  | rmnet s v => exact rec_untouched cfg n sid mode _ h (by simp)
+  | bcw s v => exact rec_untouched cfg n sid mode _ h (by simp)
+  | addnoc s ca fid node subj ser =>
+    have ⟨hk, hf⟩ := sessOp_addnoc_keep cfg n sid s ca fid node subj ser mode
+    have ⟨h3, h4⟩ := sessOp_store_untouched cfg n sid mode (.addnoc s ca fid node subj ser) (by simp)
+    exact rec_keep hk h3 h4 hf h
+  | updnoc s node ser => exact rec_updnoc cfg n sid s node ser mode h
+  | acl s v => exact rec_write cfg n sid mode _ hg h (by simp)
+  | grp s v => exact rec_write cfg n sid mode _ hg h (by simp)
+  | label s v => exact rec_write cfg n sid mode _ hg h (by simp)
+  | complete s => exact rec_complete cfg n sid s mode hg h
+  | rmfab s idx => exact rec_rmfab cfg n sid s idx mode hg h
+  | revoke s =>
+    simp only [sessOp]
+    have := rec_expire cfg n (some sid) hg h
+    rcases hr : expire cfg n (some sid) with ⟨n1, e⟩
+    rw [hr] at this
+    cases e with
+    | some e => exact this
+    | none => exact rec_same (n := n1) (fun i => rfl) rfl rfl rfl this
+  | _ => exact h
+
+/-! ### restart -/
+
+theorem recOK_sub {kv kv' : KV} (hf : kv'.fabs = kv.fabs)
+    (hr : ∀ l', kv'.resum = .recs l' → ∃ l, kv.resum = .recs l ∧ ∀ r ∈ l', r ∈ l) (h : RecOK kv) : RecOK kv' := by
+  intro l' hl' r hr' f' hk
+  obtain ⟨l, hl, hsub⟩ := hr l' hl'
+  have hk' : kvF kv r.fab = some f' := by simpa [kvF, hf] using hk
+  exact h l hl r (hsub r hr') f' hk'
+
+theorem filter_eq_of_length {α : Type} (p : α → Bool) : ∀ (l : List α), (l.filter p).length = l.length → l.filter p = l := by
+  intro l
+  induction l with
+  | nil => intro _; rfl
+  | cons x xs ih =>
+    intro h
+    by_cases hx : p x = true
+    · simp only [List.filter_cons, hx, if_true, List.length_cons, Nat.add_right_cancel_iff] at h ⊢
+      rw [ih h]
+    · have hx' : p x = false := by simpa using hx
+      simp only [List.filter_cons, hx', Bool.false_eq_true, if_false, List.length_cons] at h
+      have := List.length_filter_le p xs
+      omega
+
+/-- a restart from a `RecOK` store: the stored records are the (live) records of the node again, and
+what it adds to the store history is `RecOK` -/
+theorem rec_restartFrom (n : Node) (kv : KV) (hist : List KV) (h : RecOK kv) (hh : ∀ x ∈ hist, RecOK x) :
+    Rec (restartFrom n kv hist) := by
+  have hg := restartFrom_genInv n kv hist h
+  have hsub : ∀ x ∈ (restartFrom n kv hist).hist, x ∈ hist ∨
+      (x.fabs = kv.fabs ∧ ∀ l', x.resum = .recs l' → ∃ l, kv.resum = .recs l ∧ ∀ r ∈ l', r ∈ l) := by
+    unfold restartFrom
+    cases hk : kv.resum with
+    | absent =>
+      simp only []
+      split
+      · rename_i hc; exact absurd rfl hc
+      · intro x hx; exact Or.inl hx
+    | garbage =>
+      simp only []
+      split
+      · rename_i hc; exact absurd rfl hc
+      · intro x hx
+        rcases List.mem_cons.mp hx with rfl | hx
+        · exact Or.inr ⟨rfl, fun l' hl' => by cases hl'⟩
+        · exact Or.inl hx
+    | recs l =>
+      simp only []
+      split
+      · intro x hx
+        rcases List.mem_cons.mp hx with rfl | hx
+        · refine Or.inr ⟨rfl, fun l' hl' => ⟨l, rfl, fun r hr => ?_⟩⟩
+          injection hl' with hl'
+          subst hl'
+          exact (List.mem_filter.mp hr).1
+        · exact Or.inl hx
+      · intro x hx; exact Or.inl hx
+  have hlive : RecLive (restartFrom n kv hist) := by
+    intro l' hl' r hr
+    -- the stored records after the restart are the node's records
+    have hmem : r ∈ (restartFrom n kv hist).resum := by
+      revert hl'
+      unfold restartFrom
+      cases hk : kv.resum with
+      | absent =>
+        simp only []
+        split
+        · rename_i hc; exact absurd rfl hc
+        · intro hl'; rw [hk] at hl'; cases hl'
+      | garbage =>
+        simp only []
+        split
+        · rename_i hc; exact absurd rfl hc
+        · intro hl'; cases hl'
+      | recs l =>
+        simp only []
+        split
+        · intro hl'
+          injection hl' with hl'
+          subst hl'
+          exact hr
+        · rename_i hlen
+          intro hl'
+          have hl2 : RBlob.recs l = RBlob.recs l' := by rw [← hk]; exact hl'
+          injection hl2 with hl2
+          subst hl2
+          have hlen' : (l.filter (fun r => kv.fabs.any fun f => decide (f.idx = r.fab))).length = l.length := by
+            simpa using hlen
+          rw [filter_eq_of_length _ l hlen']
+          exact hr
+    exact hg.1.2 r hmem
+  refine ⟨hlive, fun x hx => ?_, (restartFrom_agree n kv hist).2.2.1⟩
+  rcases hsub x hx with h1 | ⟨hf, hr⟩
+  · exact hh x h1
+  · exact recOK_sub hf hr h
+
+
+/-! ### the whole step -/
+
+theorem rec_fresh (now g : Nat) : Rec ({ now := now, nextGen := g } : Node) :=
+  ⟨fun l hl => (by cases hl), fun kv hk => (by cases hk), rfl⟩
+
+theorem recOK_empty : RecOK ({} : KV) := fun l hl => by cases hl
+
+theorem step_good (cfg : Cfg) (n : Node) (op : Op) (hg : GenInv n) (h : Rec n) (hop : op ≠ .freset)
+    (hc' : (step cfg n op).1.failIn = 0) : GenInv (step cfg n op).1 ∧ Rec (step cfg n op).1 := by
+  cases hso : isSessOp op with
+  | some sid =>
+    have hg1 := checkTimeouts_genInv cfg n (some sid) hg
+    have h1 := rec_checkTimeouts cfg n (some sid) hg h
+    rcases step_sess cfg n op sid hso with e | e | ⟨s1, _, e⟩
+    · rw [e]; exact ⟨hg, h⟩
+    · rw [e]; exact ⟨hg1, h1⟩
+    · rw [e]; exact ⟨sessOp_genInv cfg _ sid s1.mode op hg1, sessOp_rec cfg _ sid s1.mode op hg1 h1⟩
+  | none =>
+    have hnr_case : restartLike op = false → GenInv (step cfg n op).1 := step_genInv cfg n op hg hop
+    cases op with
+    | boot =>
+      refine ⟨hnr_case rfl, ?_⟩
+      simp only [step, isSessOp]; split <;> first | exact h | exact rec_same (n := n) (fun i => rfl) rfl rfl rfl h
+    | pase =>
+      refine ⟨hnr_case rfl, ?_⟩
+      simp only [step, isSessOp]
+      split
+      · exact h
+      · have ⟨a1, _, a3, a4, a5⟩ := addSess_fields cfg n (.pase 0) 0 0
+        rcases hr : addSess cfg n (.pase 0) 0 0 with ⟨n1, o⟩
+        rw [hr] at a1 a3 a4 a5
+        cases o <;> exact rec_same (fun i => fabGen_congr a1 i) a3 a4 a5 h
+    | caseEst fab node rid =>
+      refine ⟨hnr_case rfl, ?_⟩
+      simp only [step, isSessOp]
+      split
+      · exact h
+      · rename_i f _
+        have ⟨a1, _, a3, a4, a5⟩ := addSess_fields cfg n (.case fab) node f.gen
+        rcases hr : addSess cfg n (.case fab) node f.gen with ⟨n1, o⟩
+        rw [hr] at a1 a3 a4 a5
+        cases o <;> exact rec_same (fun i => fabGen_congr a1 i) a3 a4 a5 h
+    | hs fab node rid =>
+      refine ⟨hnr_case rfl, ?_⟩
+      simp only [step, isSessOp]
+      split
+      · exact h
+      · rename_i f _
+        have ⟨a1, _, a3, a4, a5⟩ := addSess_fields cfg n (.case fab) node f.gen
+        rcases hr : addSess cfg n (.case fab) node f.gen with ⟨n1, o⟩
+        rw [hr] at a1 a3 a4 a5
+        cases o <;> exact rec_same (fun i => fabGen_congr a1 i) a3 a4 a5 h
+    | hsdone sid =>
+      refine ⟨hnr_case rfl, ?_⟩
+      simp only [step, isSessOp]
+      split <;> first | exact h | exact rec_same (n := n) (fun i => rfl) rfl rfl rfl h
+    | resume rid newRid =>
+      refine ⟨hnr_case rfl, ?_⟩
+      simp only [step, isSessOp]
+      split
+      · exact h
+      · rename_i r _
+        split
+        · exact h
+        · have ⟨a1, _, a3, a4, a5⟩ := addSess_fields cfg n (.case r.fab) r.peer r.gen
+          rcases hr : addSess cfg n (.case r.fab) r.peer r.gen with ⟨n1, o⟩
+          rw [hr] at a1 a3 a4 a5
+          cases o <;> exact rec_same (fun i => fabGen_congr a1 i) a3 a4 a5 h
+    | tick secs => exact ⟨hnr_case rfl, rec_same (n := n) (fun i => rfl) rfl rfl rfl h⟩
+    | poll =>
+      refine ⟨hnr_case rfl, ?_⟩
+      simp only [step, isSessOp]
+      have := rec_checkTimeouts cfg n none hg h
+      rcases hr : checkTimeouts cfg n none with ⟨n1, e⟩
+      rw [hr] at this
+      cases e <;> exact this
+    | flush =>
+      have hg' := hnr_case rfl
+      refine ⟨hg', ?_⟩
+      simp only [step, isSessOp, kvTick_calm h.calm, Bool.false_eq_true, if_false, ok] at hg' ⊢
+      refine rec_commit (n := n) hg' ?_ (Or.inl rfl) h.hist h.calm
+      intro l hl r hr
+      simp only [kvCommit] at hl
+      injection hl with hl
+      subst hl
+      exact hg.1.2 r hr
+    | restart =>
+      simp only [step, isSessOp, ok]
+      have hrk := recOK_of hg h.live
+      exact ⟨restartFrom_genInv n n.kv n.hist hrk, rec_restartFrom n n.kv n.hist hrk h.hist⟩
+    | crash k =>
+      simp only [step, isSessOp, ok]
+      cases hd : List.drop (n.hist.length - min k n.hist.length) n.hist with
+      | nil => exact ⟨restartFrom_genInv n {} [] recOK_empty, rec_restartFrom n {} [] recOK_empty (fun x hx => by cases hx)⟩
+      | cons kv0 rest =>
+        have hsub : ∀ x ∈ kv0 :: rest, x ∈ n.hist := by
+          intro x hx
+          have : x ∈ List.drop (n.hist.length - min k n.hist.length) n.hist := by rw [hd]; exact hx
+          exact List.mem_of_mem_drop this
+        have hk0 : RecOK kv0 := h.hist kv0 (hsub kv0 List.mem_cons_self)
+        exact ⟨restartFrom_genInv n kv0 (kv0 :: rest) hk0,
+          rec_restartFrom n kv0 (kv0 :: rest) hk0 (fun x hx => h.hist x (hsub x hx))⟩
+    | corrupt =>
+      simp only [step, isSessOp, ok]
+      have hk0 : RecOK { n.kv with resum := .garbage } := fun l hl => by cases hl
+      refine ⟨restartFrom_genInv n _ _ hk0, rec_restartFrom n _ _ hk0 (fun x hx => ?_)⟩
+      rcases List.mem_cons.mp hx with rfl | hx
+      · exact hk0
+      · exact h.hist x hx
+    | kvfail k =>
+      refine ⟨hnr_case rfl, ?_⟩
+      have hcalm : ({ n with failIn := min k 3 } : Node).failIn = 0 := hc'
+      exact ⟨recLive_same (n := n) (fun i => rfl) rfl h.live, h.hist, hcalm⟩
+    | coldreset => exact ⟨genInv_fresh _ _, rec_fresh _ _⟩
+    | fabrecover i => exact ⟨genInv_fresh _ _, rec_fresh _ _⟩
+    | freset => exact absurd rfl hop
+    | _ => simp [isSessOp] at hso
+
+/-- no store fault fires: the fault counter is 0 in every state of the run (decidable) -/
+def Calm (cfg : Cfg) : Node → List Op → Prop
+  | n, [] => n.failIn = 0
+  | n, op :: rest => n.failIn = 0 ∧ Calm cfg (step cfg n op).1 rest
+
+instance decCalm (cfg : Cfg) : (n : Node) → (ops : List Op) → Decidable (Calm cfg n ops)
+  | n, [] => by simp only [Calm]; infer_instance
+  | n, op :: rest =>
+    have := decCalm cfg (step cfg n op).1 rest
+    by simp only [Calm]; infer_instance
+
+theorem calm_head (cfg : Cfg) (n : Node) (ops : List Op) (h : Calm cfg n ops) : n.failIn = 0 := by
+  cases ops with
+  | nil => exact h
+  | cons op rest => exact h.1
+
+theorem run_good (cfg : Cfg) (ops : List Op) : ∀ (n : Node), GenInv n → Rec n → Op.freset ∉ ops → Calm cfg n ops →
+    GenInv (run cfg n ops) ∧ Rec (run cfg n ops) := by
+  induction ops with
+  | nil => intro n hg h _ _; exact ⟨hg, h⟩
+  | cons op rest ih =>
+    intro n hg h hno hcalm
+    have hop : op ≠ .freset := fun he => hno (by rw [he]; exact List.mem_cons_self)
+    have hc' := calm_head cfg _ rest hcalm.2
+    have ⟨hg', h'⟩ := step_good cfg n op hg h hop hc'
+    exact ih _ hg' h' (fun hm => hno (List.mem_cons_of_mem _ hm)) hcalm.2
+
+theorem rec_init : Rec ({} : Node) := ⟨fun l hl => (by cases hl), fun kv hk => (by cases hk), rfl⟩
 
 end Admin
